@@ -64,3 +64,23 @@ def param_names(fn_node):
     a = fn_node.args
     return [x.arg for x in a.posonlyargs + a.args + a.kwonlyargs] + \
         ([a.vararg.arg] if a.vararg else []) + ([a.kwarg.arg] if a.kwarg else [])
+
+
+def inline_locals(expr, stmts, depth=6):
+    """expr with every local that has exactly one plain definition among stmts replaced by that definition
+    (recursively): what the expression is in terms of the names that come from outside"""
+    import copy
+    defs = {}
+    for n in stmts:
+        for x in ast.walk(n):
+            if isinstance(x, ast.Assign) and len(x.targets) == 1 and isinstance(x.targets[0], ast.Name):
+                defs[x.targets[0].id] = None if x.targets[0].id in defs else x.value
+
+    def go(e, d):
+        class R(ast.NodeTransformer):
+            def visit_Name(self, x):
+                if isinstance(x.ctx, ast.Load) and defs.get(x.id) is not None and d < depth:
+                    return go(copy.deepcopy(defs[x.id]), d + 1)
+                return x
+        return R().visit(copy.deepcopy(e))
+    return go(expr, 0)
